@@ -95,7 +95,10 @@ Example at_most_one_group_matches_a_combo_applies :
   let cb := mkCombo [] [] [] (Some (mkA 21 2)) None false [] in
   let cb2 := mkCombo [] [] [] (Some (mkA 10 2)) None false [] in
   distinct_groups ([new_rt 2 cb2] ++ new_rt 2 cb :: []) /\ rt_matches (new_rt 2 cb) cb = true.
-Proof. vm_compute. repeat constructor. Qed.
+Proof.
+  split; [|vm_compute; reflexivity]. cbn [app distinct_groups].
+  split; [|split; [constructor|exact I]]. constructor; [vm_compute; reflexivity|constructor].
+Qed.
 
 (* sumQ_bases cat cts: sum of the bases of all groups of the category with code cat;
    sumQ_rows cr c cat rows: sum over the rows and over each row's combos of category cat of the
